@@ -189,21 +189,32 @@ theorem hkLinksGo_cons (classic : Bool) (now : Nat) (l : FLink F) (rest : List (
        (hkOne classic now l i reg).2.2 ++ (hkLinksGo classic now rest (i + 1) (hkOne classic now l i reg).2.1).2.2) := by
   rw [hkLinksGo]
   unfold hkOne
-  split
-  · split
-    · split
-      · split <;> rfl
-      · rfl
-    · rfl
-  · unfold hkLive
-    by_cases h1 : l.needsKeepalive now = true
-    · simp only [h1, if_true]
-      by_cases h2 : (l.keepalivePacket now).1.needsRttMeasurement now = true
-      · simp only [h2, if_true]; rfl
-      · simp only [h2, if_false]; rfl
-    · simp only [h1, if_false]
-      by_cases h2 : l.needsRttMeasurement now = true
-      · simp only [h2, if_true]; rfl
-      · simp only [h2, if_false]; rfl
+  cases hto : l.isTimedOut now with
+  | true =>
+    simp only [if_true]
+    cases hra : l.shouldAttemptReconnect now with
+    | true =>
+      simp only [if_true]
+      cases hp : reg.pending with
+      | none => rfl
+      | some p =>
+        by_cases hpi : p = i
+        · simp only [hpi, if_true]; rfl
+        · simp only [hpi, if_false]; rfl
+    | false => simp only [Bool.false_eq_true, if_false]
+  | false =>
+    simp only [Bool.false_eq_true, if_false]
+    unfold hkLive
+    cases h1 : l.needsKeepalive now with
+    | true =>
+      simp only [if_true]
+      cases h2 : (l.keepalivePacket now).1.needsRttMeasurement now with
+      | true => simp only [if_true]; rfl
+      | false => simp only [Bool.false_eq_true, if_false]; rfl
+    | false =>
+      simp only [Bool.false_eq_true, if_false]
+      cases h2 : l.needsRttMeasurement now with
+      | true => simp only [if_true]; rfl
+      | false => simp only [Bool.false_eq_true, if_false]; rfl
 
 end Srtla.Keepalive
